@@ -36,6 +36,7 @@ type c06Job struct {
 	Prior string `json:"prior"` // none | inside | stop
 	P     uint64 `json:"p"`     // recorded position before the run (prior != none)
 	Grow  int    `json:"grow"`  // number of growth operations of the environment (1: h→h+3; 2: h→h+1→h+3; 3: +1,+1,+1)
+	FreeB bool   `json:"freeb"` // switches to the environment at step boundaries are free (else they count as the preemption)
 }
 
 type c06Case struct {
@@ -78,12 +79,8 @@ func c06Jobs(thorough bool) []c06Job {
 						shapes := []string{"L1", "T1"}
 						grow := 2
 						if !thorough {
-							// quick: one shape per (batch, conc) cell, alternating; one growth operation less
+							// quick: one shape per (batch, conc) cell, alternating
 							shapes = []string{[]string{"L1", "T1"}[(batch+conc)%2]}
-							grow = 1
-							if h <= 2 {
-								grow = 2
-							}
 						}
 						for _, sh := range shapes {
 							base := c06Job{Shape: sh, H: h, Start: start, Stop: stop, Batch: batch, Conc: conc, Grow: grow}
@@ -128,6 +125,12 @@ func c06Jobs(thorough bool) []c06Job {
 	}
 	return jobs
 }
+
+// c06PriorFailed: the run that should have produced the prior recorded position did not (a
+// failure of the code under test, reported as a violation of the job, not as a harness error).
+type c06PriorFailed struct{ what, detail string }
+
+func (e *c06PriorFailed) Error() string { return "prior run: " + e.what + ": " + e.detail }
 
 type c06Prep struct {
 	decl       *world.Decl
@@ -189,13 +192,13 @@ func c06Prepare(j c06Job) (*c06Prep, error) {
 					break
 				}
 				if out != "ok" {
-					perr = fmt.Errorf("prior run: step %d: %s %v", s, out, err)
+					perr = &c06PriorFailed{"outcome:" + out, fmt.Sprintf("step %d of the run to position %d returned %q: %v", s, j.P, out, err)}
 					return
 				}
 			}
 			cur, has := w.Latest("src1", "ig1")
 			if !has || cur.Num != j.P {
-				perr = fmt.Errorf("prior run: cursor %v/%d, wanted %d", has, cur.Num, j.P)
+				perr = &c06PriorFailed{"position", fmt.Sprintf("chain of %d blocks, start=%d stop=%d: position %v/%d recorded, expected %d", j.P, j.Start, j.Stop, has, cur.Num, j.P)}
 				return
 			}
 			p.priorFirst = j.P
@@ -217,7 +220,7 @@ func c06Prepare(j c06Job) (*c06Prep, error) {
 			want = j.P
 		}
 		if p.priorFirst != want {
-			return nil, fmt.Errorf("prior run: first block %d, wanted %d", p.priorFirst, want)
+			return nil, &c06PriorFailed{"first-block", fmt.Sprintf("chain of %d blocks, start=%d: first block written is %d, expected %d", j.P, j.Start, p.priorFirst, want)}
 		}
 	}
 	if len(c06PrepCache) > 32 {
@@ -374,7 +377,14 @@ func c06Exec(j c06Job, p *c06Prep, ch vrt.Chooser, states map[uint64]struct{}, t
 		mHas, mCur = true, nc
 	}
 
-	waited, knownPanic := false, false
+	waited, knownPanic, emptyDone, beyondSeen := false, false, false, false
+	v0 := w.Node("node1").Version
+	headOf := func(version int) uint64 { // head of the chain a node version served
+		if k := version - v0; k > 0 && k <= len(p.grow) {
+			return p.grow[k-1].Head().Num
+		}
+		return p.init.Head().Num
+	}
 	w.Run(func() {
 		conf, err := world.ParseConf(p.conf)
 		if err != nil {
@@ -396,7 +406,35 @@ func c06Exec(j c06Job, p *c06Prep, ch vrt.Chooser, states map[uint64]struct{}, t
 			w.HarnessErr = fmt.Sprintf("prior state: cursor %v/%d, model %v/%d", has, c.Num, mHas, mCur)
 			return
 		}
-		envDone := false
+		// ---- environment: growth operations applied at harness-level choice points ----
+		// (before any step and at every JSON-RPC exchange of the task: exactly the places where an
+		// environment thread whose only operation is "replace the node's chain" can be observed)
+		applied := 0
+		envDone := func() bool { return applied == len(p.grow) }
+		apply := func(k int) {
+			for ; k > 0 && applied < len(p.grow); k-- {
+				w.Node("node1").SetChain(p.grow[applied])
+				applied++
+				res.counts["growth_ops"]++
+			}
+			w.V.Bump()
+		}
+		never := func(string) bool { return false }
+		growChoice := func(kind uint8, where string) {
+			// head pollers started by the client park on a ticker nobody fires: starting them commutes with everything
+			for _, t := range w.V.Threads() {
+				if t.OnlyAt == nil && strings.HasPrefix(t.Name, "g") {
+					t.OnlyAt = never
+				}
+			}
+			if n := len(p.grow) - applied; n > 0 {
+				if k := w.V.ChooseEnv(1+n, kind, "grow:"+where); k > 0 {
+					res.counts["growth_"+where]++
+					apply(k)
+				}
+			}
+		}
+		w.OnExchange = func(ex *simeth.Exchange) { growChoice(vrt.KPreempt, "rpc") }
 		tt := w.V.GoNamed("task", func() {
 			maxSteps := 3*int(finalHead) + 12
 			doneStreak, idleStreak := 0, 0
@@ -405,6 +443,11 @@ func c06Exec(j c06Job, p *c06Prep, ch vrt.Chooser, states map[uint64]struct{}, t
 				vrt.Boundary("step")
 				if w.V.Closing() {
 					return
+				}
+				if j.FreeB {
+					growChoice(vrt.KFree, "boundary")
+				} else {
+					growChoice(vrt.KPreempt, "boundary")
 				}
 				if w.V.ChooseEnv(2, vrt.KEnv, "restart") == 1 {
 					// process restart without crash: every in-memory object is discarded
@@ -428,10 +471,23 @@ func c06Exec(j c06Job, p *c06Prep, ch vrt.Chooser, states map[uint64]struct{}, t
 				if w.V.Closing() {
 					return
 				}
+				w.V.WaitIdle() // let a head poller spawned by this step reach its ticker
+				if w.V.Closing() {
+					return
+				}
 				if fatal {
 					return
 				}
-				beyond := !hadCur && j.Start > 0 && j.Start-1 > headBefore // start beyond the head when the step began
+				// start beyond the head: the node answered result:null for block start-1 in this step
+				beyond := false
+				if exs := w.Net.Exchanges(); !hadCur && j.Start > 0 && len(exs) > nEx {
+					ex := exs[len(exs)-1]
+					beyond = len(ex.Calls) == 1 && ex.Calls[0].Method == "eth_getBlockByNumber" && len(ex.Calls[0].Params) == 2 &&
+						fmt.Sprint(ex.Calls[0].Params[0]) == fmt.Sprintf("0x%x", j.Start-1) && strings.Contains(string(ex.Body), `"result":null`)
+				}
+				if beyond {
+					beyondSeen = true
+				}
 				if hadStop {
 					if out != "done" {
 						vio("completion", "not-done-after-stop:"+out+":"+tag, fmt.Sprintf("position %d >= stop %d is recorded but the step returned %q (%v)", curBefore, j.Stop, out, err))
@@ -451,24 +507,26 @@ func c06Exec(j c06Job, p *c06Prep, ch vrt.Chooser, states map[uint64]struct{}, t
 					}
 					progress = true
 				case "done":
-					if !hadStop && !(j.Stop > 0 && !hadCur && j.Start > j.Stop) {
+					// begins at a head beyond stop: nothing to do (the head is the one the node answered in this step)
+					emptyAtHead := false
+					if j.Stop > 0 && !hadCur && j.Start == 0 {
+						for _, ex := range w.Net.Exchanges()[nEx:] {
+							if len(ex.Calls) == 1 && ex.Calls[0].Method == "eth_getBlockByNumber" && len(ex.Calls[0].Params) == 2 && fmt.Sprint(ex.Calls[0].Params[0]) == "latest" {
+								emptyAtHead = headOf(ex.Version) > j.Stop
+								break
+							}
+						}
+					}
+					if emptyAtHead {
+						emptyDone = true
+					}
+					if !hadStop && !(j.Stop > 0 && !hadCur && j.Start > j.Stop) && !emptyAtHead {
 						vio("completion", "done-before-stop:"+tag, fmt.Sprintf("step reported completion but no position >= stop %d is recorded (position %v/%d, start %d)", j.Stop, hadCur, curBefore, j.Start))
 						return
 					}
 				case "nothing":
 				case "panic":
-					known := false
-					if !hadCur && j.Start > 0 {
-						exs := w.Net.Exchanges()
-						if len(exs) > nEx {
-							ex := exs[len(exs)-1]
-							if len(ex.Calls) == 1 && ex.Calls[0].Method == "eth_getBlockByNumber" && len(ex.Calls[0].Params) == 2 &&
-								fmt.Sprint(ex.Calls[0].Params[0]) == fmt.Sprintf("0x%x", j.Start-1) && strings.Contains(string(ex.Body), `"result":null`) {
-								known = true
-							}
-						}
-					}
-					if known {
+					if beyond {
 						knownPanic = true
 						vio("panic", c06KnownPanic, fmt.Sprintf("start=%d, head=%d: Converge panicked after the node answered result:null for block start-1=%d: %v", j.Start, headBefore, j.Start-1, err))
 					} else {
@@ -499,15 +557,17 @@ func c06Exec(j c06Job, p *c06Prep, ch vrt.Chooser, states map[uint64]struct{}, t
 				} else {
 					idleStreak = 0
 				}
-				if envDone && (doneStreak >= 2 || idleStreak >= 2) {
+				if envDone() && (doneStreak >= 2 || idleStreak >= 2) {
 					break
 				}
-				if !progress && !envDone {
+				if !progress && !envDone() {
+					// the task would sleep until something changes: the environment acts (one operation, or all that remain)
 					waited = true
-					vrt.Sleep(time.Second)
-					if w.V.Closing() {
-						return
+					k := 1
+					if n := len(p.grow) - applied; n >= 2 && w.V.ChooseEnv(2, vrt.KFree, "grow:idle") == 1 {
+						k = n
 					}
+					apply(k)
 				}
 				if s == maxSteps-1 {
 					vio("noconverge", "noconverge:"+tag+":"+errClass(lastErr), fmt.Sprintf("after %d steps position=%v/%d, final head=%d; last error: %v", maxSteps, mHas, mCur, finalHead, lastErr))
@@ -525,7 +585,7 @@ func c06Exec(j c06Job, p *c06Prep, ch vrt.Chooser, states map[uint64]struct{}, t
 				return
 			}
 			dump := world.RenderDump(w.PG.Dump("t1"), cols)
-			if j.Stop > 0 && j.Start > j.Stop {
+			if (j.Stop > 0 && j.Start > j.Stop) || (emptyDone && !has) {
 				if has || len(dump) > 0 {
 					vio("range", "written-with-empty-range:"+tag, fmt.Sprintf("start %d > stop %d but position=%v/%d and %d rows exist", j.Start, j.Stop, has, cur.Num, len(dump)))
 				}
@@ -544,15 +604,7 @@ func c06Exec(j c06Job, p *c06Prep, ch vrt.Chooser, states map[uint64]struct{}, t
 				vio("rows", "final-table:"+tag, fmt.Sprintf("table != projection of blocks %d..%d\n%s", first, cur.Num, world.DiffSorted(dump, exp)))
 			}
 		})
-		env := w.V.GoNamed("env", func() {
-			for i, c := range p.grow {
-				w.SetChain("node1", c, fmt.Sprintf("grow%d", i))
-			}
-			envDone = true
-			w.V.Bump()
-		})
-		env.OnlyAt = func(l string) bool { return strings.HasPrefix(l, "rpc:") || strings.HasPrefix(l, "boundary:") }
-		w.V.Join(tt, env)
+		w.V.Join(tt)
 	})
 	res.trans = w.V.Transitions
 	if w.HarnessErr != "" {
@@ -568,7 +620,7 @@ func c06Exec(j c06Job, p *c06Prep, ch vrt.Chooser, states map[uint64]struct{}, t
 	switch {
 	case len(res.vios) > 0 && !(len(res.vios) == 1 && res.vios[0].Key == c06KnownPanic):
 		res.outcome = "VIOLATION:" + res.vios[len(res.vios)-1].Class
-	case j.Stop > 0 && j.Start > j.Stop:
+	case (j.Stop > 0 && j.Start > j.Stop) || (emptyDone && !mHas):
 		res.outcome = "empty-range"
 	case j.Stop > 0 && j.Stop <= finalHead:
 		res.outcome = "done-at-stop"
@@ -584,6 +636,9 @@ func c06Exec(j c06Job, p *c06Prep, ch vrt.Chooser, states map[uint64]struct{}, t
 	if waited {
 		res.outcome += ":waited"
 	}
+	if beyondSeen {
+		res.outcome += ":start-beyond-head"
+	}
 	if knownPanic {
 		res.outcome += ":known-panic"
 	}
@@ -595,11 +650,16 @@ func c06Exec(j c06Job, p *c06Prep, ch vrt.Chooser, states map[uint64]struct{}, t
 	return res
 }
 
-func c06Bounds(thorough bool) explore.Bounds {
+// c06Bounds: deviations from the default schedule (growth only when the task idles, no restart):
+// KPreempt = growth operations placed before a step or at a JSON-RPC exchange, KEnv = restarts.
+func c06Bounds(j c06Job, thorough bool) explore.Bounds {
 	var b explore.Bounds
 	b[0], b[vrt.KPreempt], b[vrt.KEnv] = 1, 1, 1
+	if j.H <= 2 || j.Start == 0 {
+		b[0] = 2 // a placed growth AND a restart in one execution
+	}
 	if thorough {
-		b[0], b[vrt.KPreempt], b[vrt.KEnv] = 3, 1, 3
+		b[0], b[vrt.KPreempt], b[vrt.KEnv] = 2, 2, 2
 	}
 	return b
 }
@@ -612,10 +672,11 @@ func c06Run(c *fw.Ctx) {
 	c.Bound("stop", "unset,1..h+2")
 	c.Bound("batch", "1..3")
 	c.Bound("concurrency", "1..2")
-	b := c06Bounds(c.Thorough())
-	c.Bound("preemptions", b[vrt.KPreempt])
-	c.Bound("restarts_per_execution", b[vrt.KEnv])
-	c.Bound("deviations_total", b[0])
+	if c.Thorough() {
+		c.Bound("deviations", "placed growth operations <= 2, restarts <= 2, together <= 2")
+	} else {
+		c.Bound("deviations", "placed growth operations <= 1, restarts <= 1; both in one execution when h <= 2 or start unset, else one of them")
+	}
 	for _, j := range jobs {
 		if !c.Mine() {
 			continue
@@ -624,13 +685,27 @@ func c06Run(c *fw.Ctx) {
 			return
 		}
 		p, err := c06Prepare(j)
+		if pf, ok := err.(*c06PriorFailed); ok {
+			c.Eval(true)
+			c.Outcome("VIOLATION:prior-run")
+			c.Violation("C06", "prior-run", "prior-run:"+pf.what+":"+j.Shape, fmt.Sprintf("job %+v\n%s", j, pf.detail), c06Case{Job: j})
+			continue
+		}
 		if err != nil {
 			c.HarnessError("prepare %+v: %v", j, err)
 			return
 		}
 		states := map[uint64]struct{}{}
+		b := c06Bounds(j, c.Thorough())
 		st := explore.Explore(b, true, func(r *explore.Run) bool {
-			res := c06Exec(j, p, r, states, false)
+			var chs vrt.Chooser = r
+			if dbg := os.Getenv("C06_CHOICES"); dbg != "" && len(r.Trimmed()) == 0 {
+				f, _ := os.OpenFile(dbg, os.O_APPEND|os.O_CREATE|os.O_WRONLY, 0o644)
+				fmt.Fprintf(f, "job %+v\n", j)
+				chs = &dbgChooser{in: r, f: f}
+				defer f.Close()
+			}
+			res := c06Exec(j, p, chs, states, false)
 			if res.harness != "" {
 				c.HarnessError("job %+v choices %v: %s", j, r.Trimmed(), res.harness)
 				return false
@@ -678,6 +753,11 @@ func c06Replay(c *fw.Ctx, raw json.RawMessage) {
 		return
 	}
 	p, err := c06Prepare(k.Job)
+	if pf, ok := err.(*c06PriorFailed); ok {
+		c.Eval(true)
+		c.Violation("C06", "prior-run", "prior-run:"+pf.what+":"+k.Job.Shape, pf.detail, k)
+		return
+	}
 	if err != nil {
 		c.HarnessError("prepare: %v", err)
 		return
